@@ -29,6 +29,12 @@ func extraCommand(cmd string, args []string) bool {
 		return raceCommand(args)
 	case "facts":
 		return factsCommand(args)
+	case "modref":
+		u, c, st := modref()
+		fmt.Println(strings.Join(u, "\n"))
+		fmt.Println(strings.Join(c, "\n"))
+		fmt.Println(st)
+		return true
 	}
 	return false
 }
